@@ -54,6 +54,9 @@ def build(spec):
         if t == "lf":
             labels = build_labels(spec["labels"])
             return labels[spec["index"]]
+        if t == "omegaconf":
+            from omegaconf import OmegaConf
+            return OmegaConf.create(spec["data"])
         raise ValueError(t)
     return spec
 
@@ -351,6 +354,168 @@ def gen_label_set(rng, single=False):
         edges = [[0, k] for k in range(1, n_nodes)]
     return {"n_nodes": n_nodes, "H": H, "W": W, "C": C, "frames": frames, "edges": edges,
             "img_seed": rng.randrange(1 << 30), "anchor": anchor, "n_videos": n_videos}
+
+
+def gen_dense_label_set(rng):
+    """label sets on which nothing forces a copy: an anchor is configured and labelled in EVERY instance,
+    every frame has the same number of instances (no NaN padding row), no predicted instances"""
+    n_nodes = rng.randint(2, 4)
+    H, W = rng.choice([16, 24, 32]), rng.choice([16, 24, 32])
+    anchor = rng.randrange(n_nodes)
+    n_inst = rng.randint(1, 3)
+    frames = []
+    for _ in range(rng.randint(1, 3)):
+        insts = []
+        for _ in range(n_inst):
+            pts = gen_instance(rng, n_nodes, W, H, 0.25, "full" if rng.random() < 0.4 else None)
+            if pts[anchor] is None:
+                pts[anchor] = [dy(rng, 1, W - 2), dy(rng, 1, H - 2)]
+            insts.append({"pts": pts, "pred": False})
+        frames.append({"insts": insts, "video": 0, "frame_idx": rng.randint(0, 40)})
+    edges = [[k, k + 1] for k in range(n_nodes - 1)]
+    return {"n_nodes": n_nodes, "H": H, "W": W, "C": rng.choice([1, 3]), "frames": frames, "edges": edges,
+            "img_seed": rng.randrange(1 << 30), "anchor": anchor, "n_videos": 1}
+
+
+CHUNK_FNS = ("bottomup_data_chunks", "centered_instance_data_chunks", "centroid_data_chunks",
+             "single_instance_data_chunks")
+
+
+def gen_chunk_case(rng, name):
+    """one call of a litdata chunk function (sleap_nn/data/get_data_chunks.py) on a labelled frame"""
+    ls = gen_dense_label_set(rng) if rng.random() < 0.5 else gen_label_set(rng)
+    idx = rng.randrange(len(ls["frames"]))
+    uo = rng.random() < 0.8
+    cons = considered(ls["frames"][idx], uo)
+    if all(is_empty(i) for i in cons):          # process_lf's domain: a non-empty considered instance
+        cons[0]["pts"][0] = [2.0, 3.0]
+    H, W = ls["H"], ls["W"]
+    mh, mw = rng.choice([(None, None), (None, None), (2 * H, 2 * W), (2 * H, 3 * W), (2 * H, None)])
+    a = {"x": {"t": "tuple", "items": [{"t": "lf", "labels": ls, "index": idx}, ls["frames"][idx].get("video", 0)]},
+         "data_config": {"t": "omegaconf", "data": {"preprocessing": {"is_rgb": rng.random() < 0.4, "max_height": mh,
+                                                                      "max_width": mw}}},
+         "max_hw": {"t": "tuple", "items": [H, W]},
+         "user_instances_only": uo,
+         "scale": rng.choice([0.5, 2.0, 0.5, 2.0, 1.0])}
+    if name != "single_instance_data_chunks":
+        a["max_instances"] = max(len(f["insts"]) for f in ls["frames"])
+    if name in ("centroid_data_chunks", "centered_instance_data_chunks"):
+        a["anchor_ind"] = ls["anchor"]
+    if name == "centered_instance_data_chunks":
+        a["crop_size"] = {"t": "tuple", "items": rng.choice([[8, 8], [12, 12]])}
+    return {"fn": name, "args": a, "torch_seed": rng.randrange(1 << 30)}
+
+
+def chunk_facts(case):
+    """what the property expects of a chunk call, from the SPEC only: (considered non-empty label
+    instances, eff_scale, scale, max_instances as the function uses it, anchor)"""
+    a = case["args"]
+    lf = a["x"]["items"][0]
+    ls = lf["labels"]
+    fr = ls["frames"][lf["index"]]
+    cons = [i for i in considered(fr, a["user_instances_only"]) if not is_empty(i)]
+    pre = a["data_config"]["data"]["preprocessing"]
+    mh = pre["max_height"] if pre["max_height"] is not None else a["max_hw"]["items"][0]
+    mw = pre["max_width"] if pre["max_width"] is not None else a["max_hw"]["items"][1]
+    eff = min(mh / ls["H"], mw / ls["W"])
+    maxi = 1 if case["fn"] == "single_instance_data_chunks" else a["max_instances"]
+    return {"ls": ls, "frame": fr, "cons": cons, "eff": eff, "scale": a["scale"], "maxi": maxi,
+            "anchor": a.get("anchor_ind"), "uo": a["user_instances_only"]}
+
+
+def chunk_summary(case, res):
+    """JSON-able digest of a chunk result for the comparison with the Coq model"""
+    name = case["fn"]
+    s = case["args"]["scale"]
+    if name == "centered_instance_data_chunks":
+        return {"crops": [{"rel": to_json(r["instance"][0] / s - r["centroid"][0]),
+                           "cen_nan": bool(torch.isnan(r["centroid"]).any())} for r in res]}
+    out = {"rows": to_json(res["instances"][0]), "n": int(res["num_instances"])}
+    if name == "centroid_data_chunks":
+        out["cents"] = to_json(res["centroids"][0])
+    return out
+
+
+def check_chunk(case, res):
+    """The property's clauses on the result of a chunk call (model independent).  Returns failures."""
+    f = chunk_facts(case)
+    name, cons, eff, s, anchor = case["fn"], f["cons"], f["eff"], f["scale"], f["anchor"]
+    n_nodes = f["ls"]["n_nodes"]
+    fails = []
+
+    def bad(clause, detail):
+        fails.append({"clause": clause, "detail": detail})
+
+    def cmp_rows(got, factor, what):
+        """got: ndarray (rows, nodes, 2) vs the labels * factor"""
+        for j, lab in enumerate(cons):
+            for k, p in enumerate(lab["pts"]):
+                g = got[j, k]
+                if p is None:
+                    if not np.isnan(g).all():
+                        bad("missing keypoint is NaN in the sample", f"{what} row {j} node {k}: {g.tolist()}")
+                elif not np.allclose(g, np.array(p) * factor, atol=1e-3, rtol=1e-4):
+                    bad(f"keypoints = labels * {'eff_scale' if name == 'centroid_data_chunks' else 'eff_scale * scale'}",
+                        f"{what} row {j} node {k}: sample {g.tolist()} label*factor {(np.array(p) * factor).tolist()}")
+        for j in range(len(cons), got.shape[0]):
+            if not np.isnan(got[j]).all():
+                bad("padding rows are NaN", f"{what} row {j}: {got[j].tolist()}")
+
+    def want_centroid(lab, factor):
+        pts = [np.array(p) * factor for p in lab["pts"] if p is not None]
+        a = lab["pts"][anchor] if anchor is not None else None
+        return np.array(a) * factor if a is not None else (np.max(pts, 0) + np.min(pts, 0)) * 0.5
+
+    fr = f["frame"]
+    if name == "centered_instance_data_chunks":
+        if not isinstance(res, list) or len(res) != len(cons):
+            bad("one crop per non-empty instance", f"{len(res) if isinstance(res, list) else type(res)} vs {len(cons)}")
+            return fails
+        for j, (r, lab) in enumerate(zip(res, cons)):
+            inst, cen = r["instance"].numpy(), r["centroid"].numpy()
+            if inst.shape != (1, n_nodes, 2) or cen.shape != (1, 2):
+                bad("shape", f"crop {j}: instance {inst.shape} centroid {cen.shape}")
+                continue
+            if int(r["num_instances"]) != len(cons) or int(r["frame_idx"]) != fr.get("frame_idx") \
+                    or int(r["video_idx"]) != case["args"]["x"]["items"][1]:
+                bad("num_instances / frame_idx / video_idx of the labelled frame", f"crop {j}")
+            wc = want_centroid(lab, eff)
+            rel = inst[0] / s - cen[0]
+            for k, p in enumerate(lab["pts"]):
+                if p is None:
+                    if not np.isnan(inst[0, k]).all():
+                        bad("missing keypoint is NaN in the sample", f"crop {j} node {k}: {inst[0, k].tolist()}")
+                elif not np.allclose(rel[k], np.array(p) * eff - wc, atol=1e-3, rtol=1e-4):
+                    bad("crop keypoints = label * eff_scale relative to the instance's centroid (anchor or bbox midpoint)",
+                        f"crop {j} node {k}: {rel[k].tolist()} vs {(np.array(p) * eff - wc).tolist()}")
+        return fails
+    if not isinstance(res, dict):
+        bad("returns a sample dict", str(type(res)))
+        return fails
+    if int(res["num_instances"]) != len(cons):
+        bad("num_instances = number of non-empty instances of the frame", f"{int(res['num_instances'])} vs {len(cons)}")
+        return fails
+    if int(res["frame_idx"]) != fr.get("frame_idx") or int(res["video_idx"]) != case["args"]["x"]["items"][1]:
+        bad("frame_idx / video_idx of the labelled frame", f"{int(res['frame_idx'])}, {int(res['video_idx'])}")
+    insts = res["instances"].numpy()
+    rows = len(cons) if f["maxi"] == 1 else len(cons) + abs(f["maxi"] - len(cons))
+    if insts.shape != (1, rows, n_nodes, 2):
+        bad("shape", f"instances {insts.shape}, expected (1, {rows}, {n_nodes}, 2)")
+        return fails
+    cmp_rows(insts[0], eff if name == "centroid_data_chunks" else eff * s, "instances")
+    if name == "centroid_data_chunks":
+        cen = res["centroids"].numpy()
+        if cen.shape != (1, rows, 2):
+            bad("shape", f"centroids {cen.shape}")
+            return fails
+        for j in range(rows):
+            if j >= len(cons):
+                if not np.isnan(cen[0, j]).all():
+                    bad("padding centroids are NaN", f"row {j}")
+            elif not np.allclose(cen[0, j], want_centroid(cons[j], eff * s), atol=1e-3, rtol=1e-4):
+                bad("centroid = (anchor or bbox midpoint of the labelled keypoints) * eff_scale * scale",
+                    f"row {j}: {cen[0, j].tolist()} vs {want_centroid(cons[j], eff * s).tolist()}")
+    return fails
 
 
 def gen_dataset_cfg(rng, ls):
